@@ -132,18 +132,21 @@ def majorCnPrior (major minor normal : Nat) (err : Rat) :
 
 /-- one `SampleDataPoint`; the optional columns default to 1.0 and 0.001 when absent -/
 def entry (hasTC hasErr : Bool) (r : Row) : Except LoadErr Entry :=
-  let err := if hasErr then r.err else defaultErrorRate
-  let t := if hasTC then r.tc else defaultTumourContent
-  match majorCnPrior r.major r.minor r.normal err with
+  match majorCnPrior r.major r.minor r.normal (if hasErr then r.err else defaultErrorRate) with
   | .error e => .error e
-  | .ok (cn, mu) => .ok { a := r.ref, b := r.alt, cn := cn, mu := mu, t := t }
+  | .ok (cn, mu) =>
+    .ok { a := r.ref, b := r.alt, cn := cn, mu := mu, t := if hasTC then r.tc else defaultTumourContent }
+
+/-- the entry of one (mutation, sample) cell: `group.at[sample, ...]`, then `SampleDataPoint` -/
+def cellEntry (hasTC hasErr : Bool) (kept : List Row) (m s : String) : Except LoadErr Entry :=
+  match pick m s (cell kept m s) with
+  | .error e => .error e
+  | .ok r => entry hasTC hasErr r
 
 /-- the per-sample vector of one mutation, in the order of `samples` -/
 def mutEntries (hasTC hasErr : Bool) (kept : List Row) (samples : List String) (m : String) :
     Except LoadErr (String × List Entry) :=
-  match mapE (fun s => match pick m s (cell kept m s) with
-                        | .error e => .error e
-                        | .ok r => entry hasTC hasErr r) samples with
+  match mapE (cellEntry hasTC hasErr kept m) samples with
   | .error e => .error e
   | .ok es => .ok (m, es)
 
@@ -154,11 +157,9 @@ def keptRows (rows : List Row) : List Row :=
 /-- `load_pyclone_data`: `(samples, [(mutation, [entry per sample])])` -/
 def load (hasTC hasErr : Bool) (rows : List Row) :
     Except LoadErr (List String × List (String × List Entry)) :=
-  let samples := samplesOf (positive rows)
-  let kept := keptRows rows
-  match mapE (mutEntries hasTC hasErr kept samples) (mutsOf kept) with
+  match mapE (mutEntries hasTC hasErr (keptRows rows) (samplesOf (positive rows))) (mutsOf (keptRows rows)) with
   | .error e => .error e
-  | .ok data => .ok (samples, data)
+  | .ok data => .ok (samplesOf (positive rows), data)
 
 /-- `load_data` without a cluster file: data points `(idx, name, entries)` -/
 def loadData (hasTC hasErr : Bool) (rows : List Row) :
